@@ -457,7 +457,7 @@ func slicesEqual(x, y any) (err error) {
 		// Get primitives out of the way
 		var tried bool
 		if tried, err = primitivesEqual(xv, yv); tried {
-			return
+			continue
 		}
 
 		err = valuesEqual(xv, yv)
